@@ -234,3 +234,96 @@ pub mod proofs {
         kani::cover!(unsafe { N::saw_pre && N::saw_post }, "one nested delivery saw the old list, another the new one");
     }
 }
+
+/// C01, the clause "for a delivery nested on the very thread that is
+/// mid-removal": deliveries of the signal land at every shim point of
+/// `unregister(id)` / `unregister_signal`; the removed action's captures (the
+/// shim `Arc`'s ghost release event) are released exactly once, by the mutator
+/// and not while a delivery is on the stack, nothing is used after its release,
+/// the surviving action is not released, and the read sections are closed.
+#[cfg(kani)]
+pub mod proofs_c01 {
+    use super::*;
+    use libc::vshim::sync::ARCS;
+
+    fn setup() {
+        reg::init_globals();
+        let mut b = reg::StateBuilder::new();
+        b.slot(SA, 0, 0);
+        install(SA);
+        b.action(SA, 3, reg::action_from(|_| hit_in_section(1))); // arc 0
+        b.action(SA, 5, reg::action_from(|_| hit_in_section(2))); // arc 1
+        b.slot(SB, 0, 0);
+        install(SB);
+        b.action(SB, 4, reg::action_from(|_| hit(9))); // arc 2
+        b.publish(8);
+        arm_filter();
+        unsafe {
+            vshim::HOOKS.interrupt = interrupt;
+            N::pre = [1, 2, 0];
+            N::npre = 2;
+        }
+    }
+    fn verdict(removed: &[usize], kept: &[usize]) {
+        unsafe {
+            let mut i = 0;
+            while i < 3 {
+                let is_removed = removed.contains(&i);
+                let is_kept = kept.contains(&i);
+                if is_removed {
+                    assert!(ARCS::released[i] == 1, "C01: removal returned but what the removed action captured was not released exactly once");
+                    assert!(!ARCS::released_in_delivery[i], "C01: an action's captures were released inside a signal handler");
+                }
+                if is_kept {
+                    assert!(ARCS::released[i] == 0, "C01: an action that was not removed was released");
+                }
+                assert!(!ARCS::used_after_release[i], "C01: a delivery touched an action that had already been released");
+                i += 1;
+            }
+            assert!(!RAN_OUTSIDE_SECTION, "C01: an action ran outside the read section that obtained it");
+            assert!(reg::data_readers() == 0 && reg::fallback_readers() == 0, "C01: a read section is still open after the removal returned");
+        }
+    }
+
+    #[kani::proof]
+    #[kani::unwind(10)]
+    pub fn c01_nest_delivery_inside_unregister() {
+        setup();
+        unsafe {
+            N::post = [2, 0, 0];
+            N::npost = 1;
+        }
+        vshim::set_mode_nest(1, 2, 0);
+        let r = unregister(reg::make_sigid(SA, 3));
+        vshim::set_mode_seq();
+        assert!(r, "C01: unregister of a live id returned false");
+        verdict(&[0], &[1, 2]);
+        let l0 = unsafe { L::n };
+        deliver(SA);
+        assert!(matches(l0, unsafe { &N::post }, 1), "C01: a removed action ran after its removal had returned");
+        verdict(&[0], &[1, 2]);
+        assert!(!unsafe { N::bad }, "C01: a delivery overlapping the removal ran neither the old nor the new action list");
+        kani::cover!(unsafe { N::saw_pre && N::saw_post }, "one nested delivery saw the old list, another the new one");
+    }
+
+    #[kani::proof]
+    #[kani::unwind(10)]
+    pub fn c01_nest_delivery_inside_unregister_signal() {
+        setup();
+        unsafe {
+            N::post = [0, 0, 0];
+            N::npost = 0;
+        }
+        vshim::set_mode_nest(1, 2, 0);
+        let r = unregister_signal(SA);
+        vshim::set_mode_seq();
+        assert!(r, "C01: unregister_signal of a signal with actions returned false");
+        verdict(&[0, 1], &[2]);
+        let l0 = unsafe { L::n };
+        deliver(SA);
+        assert!(matches(l0, unsafe { &N::post }, 0), "C01: a removed action ran after its removal had returned");
+        verdict(&[0, 1], &[2]);
+        assert!(!unsafe { N::bad }, "C01: a delivery overlapping the removal ran neither the old nor the new action list");
+        kani::cover!(unsafe { N::saw_pre && N::saw_post }, "one nested delivery saw the old list, another the new one");
+    }
+}
